@@ -29,82 +29,20 @@ Definition wf (s : D) := 0 < pl s /\ 0 < period s.
 Definition fuel_of (t : Z) : nat := S (Z.to_nat t).
 Definition elapse (s : D) (t : Z) := run (fuel_of t) s t.
 
-Lemma step_wf s t : wf s -> 0 < t -> wf (fst (fst (step s t))).
-Proof. unfold wf, step. intros [H1 H2] Ht. destruct (t <? pl s) eqn:E; cbn; lia. Qed.
-Lemma step_time s t : wf s -> 0 < t -> 0 <= snd (fst (step s t)) < t.
-Proof. unfold wf, step. intros [H1 H2] Ht. destruct (t <? pl s) eqn:E; cbn; lia. Qed.
 
-Lemma run_fuel : forall f1 f2 s t, wf s -> (Z.to_nat t < f1)%nat -> (Z.to_nat t < f2)%nat -> run f1 s t = run f2 s t.
-Proof.
-  induction f1 as [|f1 IH]; intros f2 s t W H1 H2; [lia|]. destruct f2 as [|f2]; [lia|]. cbn [run].
-  destruct (t <=? 0) eqn:Et; [reflexivity|]. assert (Ht : 0 < t) by lia.
-  pose proof (step_time s t W Ht) as T. pose proof (step_wf s t W Ht) as W'.
-  destruct (step s t) as [[s' t'] e]. cbn in *. rewrite (IH f2 s' t'); auto; lia.
-Qed.
-
-Lemma age_age a b d : age b (age a d) = age (a + b) d.
-Proof. destruct d as [[n dm] l]. cbn. f_equal. lia. Qed.
-Lemma alive_age a b d : alive b (age a d) = alive (a + b) d.
-Proof. destruct d as [[n dm] l]. cbn. f_equal. lia. Qed.
-Lemma map_age_age a b l : map (age b) (map (age a) l) = map (age (a + b)) l.
-Proof. rewrite map_map. apply map_ext. intros; apply age_age. Qed.
-Lemma filter_alive_age a b l : filter (alive b) (map (age a) l) = map (age a) (filter (alive (a + b)) l).
-Proof. induction l as [|d l IH]; cbn; [reflexivity|]. rewrite alive_age. destruct (alive (a + b) d); cbn; rewrite IH; reflexivity. Qed.
-
-Definition shift (s : D) (a : Z) : D := mkD (map (age a) (cur s)) (pl s - a) (period s).
-
-Lemma run_S f s t : 0 < t -> run (S f) s t = let '(s', t', e) := step s t in let '(s'', e') := run f s' t' in (s'', e ++ e').
-Proof. intros H. cbn [run]. destruct (t <=? 0) eqn:E; [lia|reflexivity]. Qed.
-Lemma run_0 f s : run f s 0 = (s, []). Proof. destruct f; reflexivity. Qed.
-
-Lemma elapse_inside s a : wf s -> 0 < a -> a < pl s -> elapse s a = (shift s a, []).
-Proof.
-  intros [H1 H2] Ha Hl. unfold elapse, fuel_of. rewrite run_S by lia. unfold step.
-  destruct (a <? pl s) eqn:E; [|lia]. rewrite run_0. reflexivity.
-Qed.
-
-(* a step on the shifted state with b = the step on the original with a + b *)
-Lemma step_shift s a b : wf s -> 0 < a -> a < pl s -> 0 < b -> step (shift s a) b =
-   let '(s', t', e) := step s (a + b) in (if a + b <? pl s then shift s (a + b) else s', t', e).
-Proof.
-  intros [H1 H2] Ha Hl Hb. unfold step, shift; cbn [cur pl period].
-  destruct (b <? pl s - a) eqn:E1; destruct (a + b <? pl s) eqn:E2; try lia.
-  - rewrite map_age_age. replace (pl s - a - b) with (pl s - (a + b)) by lia. reflexivity.
-  - rewrite filter_alive_age, map_age_age. replace (a + (pl s - a)) with (pl s) by lia.
-    replace (b - (pl s - a)) with (a + b - pl s) by lia. reflexivity.
-Qed.
-
-Theorem elapse_additive : forall s a b, wf s -> 0 <= a -> 0 <= b ->
-  let '(s1, e1) := elapse s a in let '(s2, e2) := elapse s1 b in
-  elapse s (a + b) = (s2, e1 ++ e2).
-Proof.
-  intros s a. revert s. remember (Z.to_nat a) as n eqn:En. revert a En.
-  induction n as [n IH] using lt_wf_ind. intros a En s b W Ha Hb.
-  destruct (Z.eq_dec a 0) as [->|Hne].
-  { unfold elapse at 1. rewrite run_0. replace (0 + b) with b by lia. destruct (elapse s b). reflexivity. }
-  assert (Ha' : 0 < a) by lia. pose proof W as [H1 H2].
-  destruct (Z_lt_le_dec a (pl s)) as [Hin|Hout].
-  - rewrite elapse_inside by auto.
-    destruct (Z.eq_dec b 0) as [->|Hb0].
-    { unfold elapse at 1. rewrite run_0. replace (a + 0) with a by lia. rewrite elapse_inside by auto. reflexivity. }
-    assert (Hb' : 0 < b) by lia.
-    unfold elapse, fuel_of. rewrite (run_S _ (shift s a) b) by lia. rewrite (run_S _ s (a + b)) by lia.
-    rewrite (step_shift s a b W Ha' Hin Hb').
-    unfold step. destruct (a + b <? pl s) eqn:E2.
-    + rewrite !run_0. reflexivity.
-    + set (s' := mkD _ _ _). assert (W' : wf s') by (unfold wf, s'; cbn; lia).
-      rewrite (run_fuel (Z.to_nat b) (Z.to_nat (a + b)) s' (a + b - pl s)) by (auto; lia).
-      destruct (run (Z.to_nat (a + b)) s' (a + b - pl s)). reflexivity.
-  - (* first tick happens within a *)
-    unfold elapse at 1. unfold fuel_of. rewrite run_S by lia.
-    unfold elapse at 2. unfold fuel_of. rewrite (run_S _ s (a + b)) by lia.
-    unfold step. destruct (a <? pl s) eqn:E1; [lia|]. destruct (a + b <? pl s) eqn:E2; [lia|].
-    set (s' := mkD _ _ _). set (e0 := map name_dmg _). assert (W' : wf s') by (unfold wf, s'; cbn; lia).
-    rewrite (run_fuel (Z.to_nat a) (fuel_of (a - pl s)) s' (a - pl s)) by (auto; unfold fuel_of; lia).
-    rewrite (run_fuel (Z.to_nat (a + b)) (fuel_of (a - pl s + b)) s' (a + b - pl s)) by (auto; unfold fuel_of; lia).
-    replace (a + b - pl s) with ((a - pl s) + b) by lia.
-    pose proof (IH (Z.to_nat (a - pl s)) ltac:(lia) (a - pl s) eq_refl s' b W' ltac:(lia) Hb) as X.
-    fold (elapse s' (a - pl s)). fold (elapse s' (a - pl s + b)).
-    destruct (elapse s' (a - pl s)) as [s1 e1]. destruct (elapse s1 b) as [s2 e2].
-    rewrite X. rewrite app_assoc. reflexivity.
-Qed.
+Fixpoint runo (fuel : nat) (s : D) (t : Z) : option (D * list ev) :=
+  match fuel with
+  | O => if t <=? 0 then Some (s, []) else None
+  | S f => if t <=? 0 then Some (s, []) else
+           let '(s', t', e) := step s t in
+           match runo f s' t' with Some (s'', e') => Some (s'', e ++ e') | None => None end
+  end.
+Definition exec_fuel (s : D) (t : Z) : nat := Z.to_nat (t / period s + 4).
+Definition elapse_exec (s : D) (t : Z) : option (D * list ev) := runo (exec_fuel s t) s t.
+(* DOT.new: dict assignment = replace the entry of that name in place, else append *)
+Fixpoint put (n : N) (dm l : Z) (c : list dot) : list dot :=
+  match c with
+  | [] => [(n, dm, l)]
+  | (n', dm', l') :: r => if N.eqb n n' then (n, dm, l) :: r else (n', dm', l') :: put n dm l r
+  end.
+Definition new (s : D) (n : N) (dm l : Z) : D := mkD (put n dm l (cur s)) (pl s) (period s).
